@@ -358,6 +358,14 @@ type StreamCase struct {
 	// raw Write adaptor); answers written with WriteTo name their stream explicitly and must still
 	// go to the stream of their request.
 	Pinned *uint16 `json:"pinned,omitempty"`
+	// Late (plain handler only): the handler keeps the requests; the application answers them, in
+	// order, from another goroutine after the reader has moved on to later requests.
+	Late bool `json:"late,omitempty"`
+	// Retry (plain handler only): answers are written with WriteToWithRetry and the transport
+	// fails the first attempt of every write with a temporary error.
+	Retry bool `json:"retry,omitempty"`
+	// WriteTimeoutMs > 0: the association is served by a Server with that WriteTimeout.
+	WriteTimeoutMs int `json:"write_timeout_ms,omitempty"`
 }
 
 // HReq is one request for the plain handler.
@@ -407,6 +415,12 @@ func feedSCTP(be *memnet.SCTP, r Req, img []byte) {
 
 func runStream(c StreamCase) *ev.Failure {
 	be := memnet.NewSCTP()
+	type keptReq struct {
+		conn diam.Conn
+		m    *diam.Message
+		rc   uint32
+	}
+	var kept []keptReq
 	var (
 		reqs    []Req
 		names   []string
@@ -446,8 +460,16 @@ func runStream(c StreamCase) *ev.Failure {
 				fail(fmt.Sprintf("instruction AVP of %d bytes", len(p)))
 				return
 			}
+			if c.Late {
+				hmu.Lock()
+				kept = append(kept, keptReq{conn, m, refcodec.Get32(p[4:])})
+				hmu.Unlock()
+				return
+			}
 			a := m.Answer(refcodec.Get32(p[4:]))
-			if p[0] == 1 && c.Pinned == nil {
+			if c.Retry {
+				_, err = a.WriteToWithRetry(conn, 2)
+			} else if p[0] == 1 && c.Pinned == nil {
 				var b []byte
 				if b, err = a.Serialize(); err == nil {
 					_, err = conn.Write(b)
@@ -471,14 +493,65 @@ func runStream(c StreamCase) *ev.Failure {
 		}
 	}
 	defer d.end()
-	be.FeedEOF()
+	plain := c.SM == nil
+	if plain && c.Retry {
+		be.WriteFault = func(call int, _ uint16) error {
+			if call%2 == 0 {
+				return &memnet.TempError{Msg: "scripted temporary error"}
+			}
+			return nil
+		}
+	}
+	late := plain && c.Late
+	if !late {
+		be.FeedEOF()
+	}
 	sc := diam.NewVerifSCTPConn(be)
 	if c.Pinned != nil {
 		sc.SetWriterStream(uint(*c.Pinned))
 	}
-	if _, err := diam.NewConn(sc, "", handler, dict.Default); err != nil {
+	if c.WriteTimeoutMs > 0 {
+		lis := memnet.NewListener(1)
+		srv := &diam.Server{Handler: handler, Dict: dict.Default, WriteTimeout: time.Duration(c.WriteTimeoutMs) * time.Millisecond}
+		go srv.Serve(lis)
+		defer lis.Close()
+		lis.Push(sc)
+	} else if _, err := diam.NewConn(sc, "", handler, dict.Default); err != nil {
 		be.Close()
 		return ev.Failf("harness-conn", "NewConn: %v", err)
+	}
+	if late {
+		// wait until every request was handed to the handler and the reader is idle again
+		deadline := time.Now().Add(waitFor)
+		for {
+			hmu.Lock()
+			n := len(kept)
+			hmu.Unlock()
+			if n == len(reqs) {
+				break
+			}
+			if time.Now().After(deadline) {
+				be.Close()
+				return ev.Failf("harness-no-dispatch", "%d requests were delivered, %d reached the handler within %v%s", len(reqs), n, waitFor, d.text())
+			}
+			time.Sleep(time.Millisecond)
+		}
+		be.WaitParked(waitFor)
+		for _, k := range kept {
+			a := k.m.Answer(k.rc)
+			var err error
+			if c.Retry {
+				_, err = a.WriteToWithRetry(k.conn, 2)
+			} else {
+				_, err = a.WriteTo(k.conn)
+			}
+			if err != nil {
+				hmu.Lock()
+				herr = append(herr, fmt.Sprintf("writing a late answer: %v", err))
+				hmu.Unlock()
+			}
+		}
+		be.FeedEOF()
 	}
 	if !be.WaitClosed(waitFor) {
 		be.Close()
@@ -519,6 +592,13 @@ func genStream(t *rapid.T) StreamCase {
 	if rapid.IntRange(0, 3).Draw(t, "pinned-writer-stream") == 0 {
 		p := uint16(rapid.IntRange(0, 20).Draw(t, "pinned"))
 		c.Pinned = &p
+	}
+	if c.SM == nil {
+		c.Late = rapid.IntRange(0, 2).Draw(t, "late-answers") == 0
+		c.Retry = rapid.IntRange(0, 2).Draw(t, "retry-after-temporary-error") == 0
+	}
+	if rapid.IntRange(0, 3).Draw(t, "write-timeout") == 0 {
+		c.WriteTimeoutMs = rapid.IntRange(1, 50).Draw(t, "write-timeout-ms")
 	}
 	return c
 }
